@@ -4,7 +4,7 @@ import vlib, gen_json
 from gen_json import hx
 
 def run_valid(run, model, impl, cfg, n, rnd, oracle_fail, all_mism, label="valid RFC 8259 texts", unicode_on=True):
-    g = gen_json.Gen(rnd, unicode_on=unicode_on)
+    g = gen_json.Gen(rnd, unicode_on=unicode_on, comments=(cfg[1] == "1"))
     docs = []
     while len(docs) < n:
         t, text = g.document()
@@ -19,7 +19,7 @@ def run_valid(run, model, impl, cfg, n, rnd, oracle_fail, all_mism, label="valid
             continue
         parts = o.split(" ")
         try:
-            exp = gen_json.expected_dump(text)
+            exp = gen_json.expected_dump(text, comments=(cfg[1] == "1"))
         except Exception as e:   # generator bug: not valid JSON for the oracle
             run.notes.append("oracle rejected a generated text: %r %s" % (text[:60], e))
             continue
